@@ -194,3 +194,39 @@ def sum_spec_unfold(vc, fn, args, k, summand):
     k = term(k)
     vc.assume(fn(*args, z3.IntVal(0)) == 0)
     vc.assume(z3.Implies(k >= 0, fn(*args, k + 1) == fn(*args, k) + summand))
+
+
+# --- accumulated formal sums of single-atom words, abstracted by their value
+#     under an arbitrary linear functional WORDVAL (equality for all
+#     functionals = equality of the formal sums) --------------------------------
+WORDVAL = z3.Function("WORDVAL", AtomSort, z3.RealSort())
+
+
+def nc_linear_value(nc):
+    t = z3.RealVal(0)
+    for c, w in nc.f["terms"]:
+        if len(w) != 1:
+            raise Unsupported("formal sum with a word of more than one atom")
+        t = t + c * WORDVAL(w[0])
+    return t
+
+
+def ncv_value(v):
+    if isinstance(v, Struct) and v.cls == "NCV":
+        return v.f["val"]
+    if isinstance(v, Struct) and v.cls == "NC":
+        return nc_linear_value(v)
+    if isinstance(v, int) and v == 0:
+        return z3.RealVal(0)
+    return as_expr(v).f["val"]
+
+
+def ncv_arith(ip, opn, a, b):
+    if opn in ("Add", "Sub"):
+        va, vb = ncv_value(a), ncv_value(b)
+        st = stamps_of(a) | stamps_of(b)
+        return Struct("NCV", val=va + vb if opn == "Add" else va - vb, stamps=st)
+    raise Unsupported("operator on an accumulated operator sum")
+
+
+C.STRUCT_ARITH["NCV"] = ncv_arith
